@@ -77,6 +77,9 @@ fn arr_bytes(a: &[Option<ValidatedShred>; TOTAL_SHREDS]) -> Vec<Option<Vec<u8>>>
 struct Lane<S: Shredder> {
     name: &'static str,
     sh: S,
+    /// the previous case's slice and shreds: a shredder instance is reused across slices of different sizes,
+    /// in both directions, and must not carry configuration from one call into the next
+    prev: Option<(Slice, Vec<ValidatedShred>)>,
 }
 
 fn one_case<S: Shredder>(ctx: &mut Ctx, rng: &mut SRng, lane: &mut Lane<S>, sk: &SecretKey, pk: &PublicKey, payload_len: usize, with_parent: bool, shapes: &[&str], verify_all: bool) {
@@ -108,6 +111,28 @@ fn one_case<S: Shredder>(ctx: &mut Ctx, rng: &mut SRng, lane: &mut Lane<S>, sk: 
         ctx.violation(format!("C11 {name} shredded a slice above the size limit"), format!("payload {payload_len} > max {}", S::MAX_DATA_SIZE), wit(json!(null)));
         return;
     }
+    // stale state: right after shredding this slice, rebuild the previous (differently sized) one from 32 shreds
+    if let Some((pslice, pshreds)) = lane.prev.take() {
+        let shape = if rng.random_bool(0.5) { "random32" } else { "first32" };
+        let sub = subset(rng, shape);
+        let mut arr: [Option<ValidatedShred>; TOTAL_SHREDS] = [const { None }; TOTAL_SHREDS];
+        for &i in &sub {
+            arr[i] = Some(pshreds[i].clone());
+        }
+        let res = guarded(|| lane.sh.deshred(&mut arr));
+        ctx.eval();
+        ctx.count("deshred:previous-slice-after-shredding-another-size");
+        match res {
+            Err(p) => ctx.violation(format!("C11 {name} deshred {} on an instance reused across slice sizes", p.sig()), p.msg, wit(json!({"previous_payload_len": pslice.data.len()}))),
+            Ok(Err(e)) => ctx.violation(format!("C11 {name} deshred failed with {e:?} on an instance reused across slice sizes"), "", wit(json!({"previous_payload_len": pslice.data.len()}))),
+            Ok(Ok(rs)) => {
+                if rs.data != pslice.data || rs.parent != pslice.parent {
+                    ctx.violation(format!("C11 {name} reconstructed slice differs from the original on an instance reused across slice sizes"), "", wit(json!({"previous_payload_len": pslice.data.len()})));
+                }
+            }
+        }
+    }
+    lane.prev = Some((slice.clone(), shreds.to_vec()));
     let orig: Vec<Vec<u8>> = shreds.iter().map(|s| ser(s.as_shred())).collect();
     let shard = crate::wire::ShredParts::parse(&orig[0]).map(|p| p.data.len()).unwrap_or(0);
     for &shape in shapes {
@@ -406,7 +431,7 @@ fn lengths(ctx: &Ctx, max: usize) -> Vec<usize> {
 }
 
 fn run_lane<S: Shredder>(ctx: &mut Ctx, name: &'static str, sk: &SecretKey, pk: &PublicKey) {
-    let mut lane = Lane { name, sh: S::default() };
+    let mut lane = Lane { name, sh: S::default(), prev: None };
     let mut rng = ctx.rng(name);
     let mut lens = lengths(ctx, S::MAX_DATA_SIZE);
     if ctx.scale < 1.0 {
